@@ -6,6 +6,7 @@ import Driver.Cl
 import Driver.Cd
 import Driver.Dr
 import Driver.Sm
+import Driver.Tm
 /-! `driver <suite>`: reads a transcript on stdin, prints the model's `obs` line for every `op` line. -/
 
 partial def loopSrv (h : IO.FS.Stream) (out : IO.FS.Stream) (st : Driver.Srv.St) : IO Unit := do
@@ -53,6 +54,15 @@ partial def loopDr (h : IO.FS.Stream) (out : IO.FS.Stream) (st : Driver.Dr.St) :
   | none => pure ()
   loopDr h out st'
 
+partial def loopTm (h : IO.FS.Stream) (out : IO.FS.Stream) (st : Driver.Tm.St) : IO Unit := do
+  let line ← h.getLine
+  if line.isEmpty then return ()
+  let (st', o) := Driver.Tm.handle st line
+  match o with
+  | some l => out.putStrLn l
+  | none => pure ()
+  loopTm h out st'
+
 partial def loopStateless (h : IO.FS.Stream) (out : IO.FS.Stream) (f : String → Option String) : IO Unit := do
   let line ← h.getLine
   if line.isEmpty then return ()
@@ -70,6 +80,7 @@ def main (args : List String) : IO UInt32 := do
   | ["client"] => loopCl stdin stdout ({}, []); return 0
   | ["pool"] => loopPl stdin stdout {}; return 0
   | ["direct"] => loopDr stdin stdout {}; return 0
+  | ["timers"] => loopTm stdin stdout {}; return 0
   | ["s2m"] => loopStateless stdin stdout Driver.Sm.handle; return 0
   | ["codec"] => loopStateless stdin stdout Driver.Cd.handle; return 0
   | ["writer"] => loopStateless stdin stdout Driver.Wr.handle; return 0
